@@ -863,7 +863,14 @@ class CrashRunner {
               if (cu && m.torn(cu, &ti)) check_image(m, ti, t, opidx);
             }
           }
-          for (int k = 0; k < P.sampled_per_point; k++) check_image(m, m.sampled(rng), t, opidx);
+          // every image the model allows at this point, when there are at most 64 of them (extreme lengths per file)
+          std::vector<FsImage> all;
+          if (m.enumerate_all(64, &all)) {
+            rep->count("crash_points_with_all_images");
+            for (auto &ai : all) check_image(m, ai, t, opidx);
+          } else {
+            for (int k = 0; k < P.sampled_per_point; k++) check_image(m, m.sampled(rng), t, opidx);
+          }
         }
       }
       rep->count("histories");
